@@ -13,15 +13,19 @@ for sid in sorted(os.listdir("/verif/seeded")):
     short = note[:230] + ("…" if len(note) > 230 else "")
     runs = m.get("checks_run", [])
     own = [r for r in runs if (" %s --tier" % m["breaks_property"]) in r["cmd"] or r["cmd"].count("./check run %s " % m["breaks_property"])]
-    last_own = own[-1]["result"] if own else "-"
+    own1 = [r for r in own if r.get("verif_seed", 1) == 1]
+    own2 = [r for r in own if r.get("verif_seed", 1) == 2]
+    last_own = own1[-1]["result"] if own1 else "-"
+    last_own2 = own2[-1]["result"] if own2 else "-"
     caught = ", ".join(m.get("caught_by", [])) or "-"
     h = m.get("history") or hist2.get(sid, "")
-    rows.append((sid, ", ".join(os.path.basename(f) for f in m["files_changed"]), short, last_own, caught, h.replace("|", "/")))
-print("| seed | file(s) | change and what it needs to manifest (from the author's notes) | own property's quick check | all checks that caught it | history |")
-print("|---|---|---|---|---|---|")
+    rows.append((sid, ", ".join(os.path.basename(f) for f in m["files_changed"]), short, last_own, last_own2, caught, h.replace("|", "/")))
+print("| seed | file(s) | change and what it needs to manifest (from the author's notes) | own property's quick check, VERIF_SEED=1 | same, VERIF_SEED=2 | all checks that caught it | history |")
+print("|---|---|---|---|---|---|---|")
 for r in rows:
-    print("| %s | %s | %s | %s | %s | %s |" % r)
+    print("| %s | %s | %s | %s | %s | %s | %s |" % r)
 n = len(rows)
 print()
 print("%d seeded changes; caught by the quick check of their own property: %d; caught by some registered quick check: %d." % (
-    n, sum(1 for r in rows if r[3] == "caught"), sum(1 for r in rows if r[4] != "-")))
+    n, sum(1 for r in rows if r[3] == "caught"), sum(1 for r in rows if r[5] != "-")))
+print("With VERIF_SEED=2: caught by the quick check of their own property: %d of %d run." % (sum(1 for r in rows if r[4] == "caught"), sum(1 for r in rows if r[4] != "-")))
